@@ -2047,7 +2047,10 @@ class ImportManager:
 
   @property
   def sorted_imports(self):
-    return sorted(self.imports, key=lambda s: s.module)
+    # The statement enabling dynamic registration has to come before any import.
+    return sorted(
+        self.imports,
+        key=lambda s: (s.module != '__gin__.dynamic_registration', s.module))
 
   def add_import(self, statement: config_parser.ImportStatement):
     """Adds a single import to this `ImportManager` instance.
